@@ -38,7 +38,7 @@ def pipeline(ctx):
     def weight(v):
         ops = v["ops"]
         return sum(1 for o in ops if o["op"] == "S" and o["ings"]) + sum(1 for o in ops if o["arch"]) + sum(1 for o in ops if o["op"] == "T") + (1 if any(o["op"] == "L" for o in ops) else 0)
-    n = 300 if ctx.quick else 5000
+    n = 300 if ctx.quick else 2400
     # half uniformly from all histories, half from the histories that combine the most features
     uniform = vecs[: n // 2]
     rest = sorted(vecs[n // 2:], key=lambda v: -weight(v))
@@ -67,8 +67,23 @@ def pipeline(ctx):
             runs.append(s)
         if any(o["arch"] for o in v["ops"]):
             runs.append(p)
-    pr = vh(["wf-run"], stdin="\n".join(json.dumps({"id": x["id"], "ops": x["ops"]}) for x in runs), timeout=20000)
-    outs = [json.loads(l) for l in pr.stdout.splitlines() if l.strip()]
+    # the histories are independent: split them over harness processes (each result keeps the order of its chunk)
+    import concurrent.futures as cf
+    nproc = 8
+    chunks = [runs[i::nproc] for i in range(nproc)]
+    def one(chunk):
+        if not chunk:
+            return []
+        pr = vh(["wf-run"], stdin="\n".join(json.dumps({"id": x["id"], "ops": x["ops"]}) for x in chunk), timeout=20000)
+        return [json.loads(l) for l in pr.stdout.splitlines() if l.strip()]
+    with cf.ThreadPoolExecutor(max_workers=nproc) as ex:
+        parts = list(ex.map(one, chunks))
+    outs = [None] * len(runs)
+    for ci, part in enumerate(parts):
+        if len(part) != len(chunks[ci]):
+            raise ToolError("replay returned %d results for %d histories" % (len(part), len(chunks[ci])))
+        for j, o in enumerate(part):
+            outs[ci + j * nproc] = o
     if len(outs) != len(runs):
         raise ToolError("replay returned %d results for %d histories" % (len(outs), len(runs)))
     findings = []   # (property, key, what, case)
